@@ -44,12 +44,16 @@ func (t fasttime) reached() bool {
 
 // makeDeadline returns a time that is approximately time.Now().Add(d)
 func makeDeadline(d time.Duration) fasttime {
+	// Read clockEnd before current: if the clock is found to cover the deadline below, it was
+	// still running when clockEnd was read, so the later read of current is fresh.
+	clockEnd := fast.clockEnd.read()
+
 	// Increase the deadline since the clock we are reading may be
 	// just about to tick forwards.
 	end := fast.current.read() + durationToTicks(d+clockPeriod)
 
 	// Start or extend clock if necessary.
-	if end > fast.clockEnd.read() {
+	if end > clockEnd {
 		// If time.Since(last use) > timeout, there's a chance that
 		// fast.current will no longer be updated, which can lead to
 		// incorrect 'end' calculations that can trigger a false timeout
@@ -57,10 +61,11 @@ func makeDeadline(d time.Duration) fasttime {
 		if !fast.running && !fast.start.IsZero() {
 			// update fast.current
 			fast.current.write(durationToTicks(time.Since(fast.start)))
-			// recalculate our end value
-			end = fast.current.read() + durationToTicks(d+clockPeriod)
 			verifPoint("clockRefresh", nil, int(fast.current.read()), int(end))
 		}
+		// recalculate our end value: current was stale if the clock was stopped, whether it
+		// has been refreshed here or by another goroutine since we read it
+		end = fast.current.read() + durationToTicks(d+clockPeriod)
 		fast.mu.Unlock()
 		extendClock(end)
 	}
@@ -84,6 +89,8 @@ func extendClock(end fasttime) {
 
 	// Start clock if necessary
 	if !fast.running {
+		// a clock that was stopped holds a stale time until its first tick
+		fast.current.write(durationToTicks(time.Since(fast.start)))
 		fast.running = true
 		verifPoint("clockStart", nil, int(fast.current.read()), int(fast.clockEnd.read()))
 		go runClock()
